@@ -453,6 +453,7 @@ def nontrivial_kernel(line, ans):
     if k == "inl": return " m:" in ans
     if k == "lvnw": return True
     if k == "ivuse": return True
+    if k == "algopt": return ans == "fired"
     if k == "lvn": return ans.count(" b ") + ans.startswith("b ") < line.count(" b ")
     if k == "dce": return line.count(" b ") > (0 if ans == "kept -" else ans.count(",") + 1)
     return False
@@ -937,7 +938,13 @@ def nested_source(r):
             "  function inner(k: int, m: int, acc: int): int =\n"
             "    if k >= m { acc } else { Main.inner(k + 1, m, acc + k) }\n\n"
             "  function outer(i: int, j: int, acc: int): int =\n"
-            f"    if i >= {b} {{ acc }} else {{ Main.outer(i + 1, {derived}, acc + j + Main.inner({start_from}, {b2}, 0)) }}\n")
+            f"    if i >= {b} {{ acc }} else {{ Main.outer(i + 1, {derived}, acc + j + Main.inner({start_from}, {b2}, 0)) }}\n\n"
+            # loops with an otherwise empty body that carry non-induction loop variables (closed-form elimination
+            # must decline): passed through, set to a constant, swapped; read after the loop
+            f"  function hold(i: int, x: int): int = if i >= {b + 4} {{ x }} else {{ Main.hold(i + 1, x) }}\n\n"
+            f"  function seen(i: int, ran: int, budget: int): int = if i >= {b + 3} {{ ran }} else {{ Main.seen(i + 1, 1, budget + 3) }}\n\n"
+            f"  function swp(i: int, u: int, w: int): int = if i > {b} {{ u }} else {{ Main.swp(i + 2, w, u) }}\n\n"
+            f"  function down(i: int, x: int, k: int): int = if i <= 0 - {b2} {{ x + k }} else {{ Main.down(i - 1, x, k + 2) }}\n")
 
 
 def gen_source(rng, avoid, nested=False):
@@ -1027,7 +1034,9 @@ def gen_source(rng, avoid, nested=False):
     if nested:
         lines.append("let y0 = Main.outer(a - a, 0, 0);")
         lines.append("let _ = Process.println(Str.fromInt(y0));")
-        ret += " + y0"
+        lines.append("let y1 = Main.hold(0, b) + Main.hold(3, 5) + Main.seen(0, 0, a) + Main.swp(1, a, b) + Main.down(2, b, a);")
+        lines.append("let _ = Process.println(Str.fromInt(y1));")
+        ret += " + y0 + y1"
     if extra:
         lines.append(f"let x0 = {extra};")
         lines.append("let _ = Process.println(Str.fromInt(x0));")
@@ -1071,6 +1080,7 @@ def gen_source_e2e(rng):
         call2 = "    let _ = Process.println(Str.fromInt(Main.count(start, start + 7, 0)));\n"
     helper = "  function helper(x: int): int = x * 2 + 1\n\n  function boxed(x: int): Str = Str.fromInt(x)\n\n" + nested_source(r)
     call2 += "    let _ = Process.println(Str.fromInt(Main.outer(start, 0, 0)));\n"
+    call2 += "    let _ = Process.println(Str.fromInt(Main.hold(0, k) + Main.hold(3, 5) + Main.seen(0, 0, k) + Main.swp(1, k, start) + Main.down(2, k, start)));\n"
     lam = r.pick(["(x0) -> x0 * 2 + k", "(x0) -> x0 + k", "(x0) -> k - x0"])
     gval = r.pick(["Main.helper", "(y0) -> y0 + 1", "(y0) -> Main.helper(y0) - k"])
     main = ("  function main(): unit = {\n    let start = \"0\".toInt();\n    let k = \"7\".toInt();\n"
@@ -1650,6 +1660,16 @@ def search_near(ctx, line):
             for b in toks:
                 if t[0] == "ccp" or True:
                     cands.append(f"{t[0]} {t[1]} {a} {b}")
+    elif t[0] == "algopt":
+        lines = [f"prog loop 31 | 0,5;4,-2;-30,1 | {pt}" for pt in algopt_family()]
+        outs = run_harness(lines)
+        for l, o in zip(lines, outs):
+            if not o.startswith("ok "):
+                ctx.violation(f"closed-form loop elimination changes behaviour: {o[:200]}",
+                              {"protocol": "prog", "pass": "loop", "config_bits": 31, "args": [(0, 5), (4, -2), (-30, 1)],
+                               "program": l.split("|", 2)[2].strip(), "answer": o})
+                return True
+        return False
     elif t[0] == "ivuse":
         progs = []
         for pos in ("init", "loopvalue", "guard", "body", "print", "none"):
@@ -1830,6 +1850,14 @@ def run(ctx):
     if nk:
         # deterministic: every position at which a nested loop may mention the outer counter
         lines += [f"ivuse {pos} {b}" for pos in ("none", "init", "loopvalue", "guard", "body", "print", "ip", "nt", "ix", "cs", "la", "st", "cl") for b in (3, 6)]
+        # closed-form loop elimination: every combination of its decline conditions x break value kinds x guard kinds
+        for g_, i0_, st_, b_ in (("lt", 0, 1, 10), ("le", 3, 2, 9), ("gt", 5, -1, -4), ("ge", 0, -3, -9), ("lt", 0, 0, 5), ("lt", 9, 1, 2)):
+            for lit_ in (1, 0):
+                for flags in ((0, 0, 0), (1, 0, 0), (0, 1, 0), (0, 0, 1), (1, 1, 1)):
+                    for brk_ in ("counter", "lit", "giv", "outer", "inner", "none"):
+                        if brk_ == "inner" and flags == (0, 0, 0):
+                            continue
+                        lines.append(f"algopt {g_} {i0_} {st_} {b_} {lit_} {flags[0]} {flags[1]} {flags[2]} {brk_}")
         # LICM: every statement kind with (a) an invariant operand, (b) the loop variable, (c) a name defined by a
         # statement that stays in the loop (late init / call collector / final assignment / break collector / kept def)
         kinds = {"ip": "ip v{x} {a}", "nt": "nt v{x} {a}", "cs": "cs v{x} {a}", "cl": "cl v{x} {a}", "ix": "ix v{x} {a} 1",
@@ -1953,7 +1981,7 @@ def run(ctx):
         "source_program_lines_compared": sstats["lines"],
         "source_programs_changed_by_pass": len(sstats["changed"]),
         "source_sample": src_sample,
-        "rule": "kernel lines (fold/tgt/merge/trip/flex/order/unwrap/ccp/ivloop/ivorig/srloop/srorig/dce/licm/lvn/lvnw/cse/inl) over a boundary-heavy 32-bit distribution "
+        "rule": "kernel lines (fold/tgt/merge/trip/flex/order/unwrap/ccp/ivloop/ivorig/srloop/srorig/dce/licm/licmk/lvn/lvnw/cse/csek/inl/ivuse/algopt) over a boundary-heavy 32-bit distribution "
                 "(0, +-1, +-2, MIN, MIN+1, MAX, MAX-1, powers of two, sqrt(MAX), random) answered by the real functions/passes and by the Lean model; "
                 "generated int-only MIR programs (straight-line, if/else with phis, single-if, counting loops of all four guard kinds and both stride "
                 "signs, empty loops for the closed form, IV-elimination candidates, loops with 2-3 basic induction variables with distinct literal/parameter starts and derived variables of any of them live in prints/calls/accumulators, duplicated pure computations whose copy feeds every consuming position (call argument, operand, condition, if/else final assignment, break value, loop initial/loop value, return value), helper functions for inlining) run before/after each single pass, "
@@ -1982,11 +2010,12 @@ def run(ctx):
                                    "tripcount_exact", "tripcount_final_value", "dce_preserves", "licm_no_new_trap",
                                    "lvnSimple_preserves", "lvn_preserves", "lvnL_preserves", "iterLoop_preserves", "lvnLoop_preserves",
                                    "cse_hoist_order", "inlineBody_preserves", "inline_preserves", "ivelim_negative_multiplier_fixed",
-                                   "phases_disjoint", "rounds_invariant", "lowering_disjoint", "unused_counter_irrelevant"],
+                                   "phases_disjoint", "rounds_invariant", "lowering_disjoint", "unused_counter_irrelevant",
+                                   "licmF_hoisted_invariant", "licmF_kept_defs_variant", "cseC_never_hoists_div", "algopt_sound"],
         "pending": ["CSE: only trap-freedom/silence of the hoisted prefix is proved (cse_hoist_order); value equivalence of the rewritten branches is validated only",
                     "lvn: proved for blocks of Binary/call/Break, SingleIf and IfElse (with final assignments) over statement blocks, and for a While over such a body (initial values, loop values, every fuel); deeper nesting (loops inside branches, branches inside branches) is validated only",
                     "inlining: proved for a callee whose body is a block of Binary/call statements (fresh-name renaming, parameter substitution, return move); callee bodies with control flow, the cost model and recursion guards are validated only",
-                    "scalar replacement: validated only (and the generated MIR has no structs)",
+                    "scalar replacement: no Lean model; validated by the interpreter on a deterministic struct/closure family (MIR level) and on the rich source family, per pass and per configuration",
                     "dce_preserves / licm for nested if/while (proved for straight-line blocks / loop bodies of Binary + call statements)",
                     "LICM permutation equivalence (hoisted ++ kept behaves like the body); only trap-freedom of the hoisted prefix is proved",
                     "inlining, LVN, scalar replacement, unused-name elimination, CCP/loop drivers: validated, not modelled"],
